@@ -41,6 +41,7 @@ type Op struct {
 	ResumeAt  []int    `json:"resume_at,omitempty"`
 	ResumeNeg bool     `json:"resume_neg,omitempty"`
 	StopAfter int      `json:"stop_after,omitempty"` // listings: consumer declines after this many items (0 = never)
+	MaxItems  int      `json:"max_items,omitempty"`  // listings: give up (marker item RUNAWAY-LISTING) beyond this many items (0 = 200000)
 }
 
 func (o *Op) String() string {
@@ -238,7 +239,10 @@ func readOutcome(r ociregistry.BlobReader, err error) *Outcome {
 	return out
 }
 
-func listOutcome[T any](seq ociregistry.Seq[T], stopAfter int, str func(T) string) *Outcome {
+func listOutcome[T any](seq ociregistry.Seq[T], stopAfter, maxItems int, str func(T) string) *Outcome {
+	if maxItems <= 0 {
+		maxItems = 200000
+	}
 	out := &Outcome{OK: true, Items: []string{}}
 	if seq == nil {
 		return fail(errors.New("HARNESS: nil Seq"))
@@ -257,6 +261,11 @@ func listOutcome[T any](seq ociregistry.Seq[T], stopAfter int, str func(T) strin
 			return false
 		}
 		out.Items = append(out.Items, str(x))
+		if len(out.Items) > maxItems {
+			out.Items = append(out.Items, "RUNAWAY-LISTING")
+			stopped = true
+			return false
+		}
 		if stopAfter > 0 && len(out.Items) >= stopAfter {
 			stopped = true
 			return false
@@ -432,11 +441,11 @@ func (e *Env) Exec(op *Op) *Outcome {
 		}
 		return &Outcome{OK: true}
 	case "Repositories":
-		return listOutcome(r.Repositories(ctx, op.StartAfter), op.StopAfter, func(s string) string { return s })
+		return listOutcome(r.Repositories(ctx, op.StartAfter), op.StopAfter, op.MaxItems, func(s string) string { return s })
 	case "Tags":
-		return listOutcome(r.Tags(ctx, op.Repo, op.StartAfter), op.StopAfter, func(s string) string { return s })
+		return listOutcome(r.Tags(ctx, op.Repo, op.StartAfter), op.StopAfter, op.MaxItems, func(s string) string { return s })
 	case "Referrers":
-		return listOutcome(r.Referrers(ctx, op.Repo, dig, ""), op.StopAfter, DescItem)
+		return listOutcome(r.Referrers(ctx, op.Repo, dig, ""), op.StopAfter, op.MaxItems, DescItem)
 	}
 	return fail(fmt.Errorf("HARNESS: unknown op kind %q", op.Kind))
 }
